@@ -7,6 +7,7 @@ import (
 	"os"
 	"path/filepath"
 	"runtime/debug"
+	"runtime/pprof"
 	"sort"
 	"strconv"
 	"strings"
@@ -173,6 +174,12 @@ func runProp(w *World, prop, tier string, ff *FindingsFile) *propResult {
 }
 
 func main() {
+	if pf := os.Getenv("TMVERIF_CPUPROFILE"); pf != "" {
+		if fh, err := os.Create(pf); err == nil {
+			_ = pprof.StartCPUProfile(fh)
+			defer pprof.StopCPUProfile()
+		}
+	}
 	prop := flag.String("prop", "", "property id (C01..C20) or 'all'")
 	tier := flag.String("tier", "quick", "quick|thorough")
 	repo := flag.String("repo", "/repo", "repository root")
@@ -389,6 +396,7 @@ func main() {
 		}
 		fmt.Printf("%s: %d obligations, %d ok, %d known findings, %d violations (%.1fs)\n", p, len(res.obls), countStatus(res.obls, "ok"), len(res.known), len(res.violations), time.Since(t0).Seconds())
 	}
+	pprof.StopCPUProfile()
 	os.Exit(exit)
 }
 
